@@ -115,6 +115,7 @@ HOOKS = [hooks.param_hook(), strict_test_hook, advance_hook]
 FEAS_ABS = [(r'^feasible\|nano::program::solver_t::program_t', 'nv_program_feasible_abs')]
 COMMON = dict(types=TYPES, calls=CALLS, members=MEMBERS, hooks=HOOKS)
 TU = 'src/program/solver.cpp'
+FLT = 'solver_t::'      # one clang dump of solver.cpp serves every member function of solver_t and solver_t::program_t
 
 
 def smax_real_vcs():
@@ -165,19 +166,21 @@ def smax_real_vcs():
 
 
 def build(tier):
-    feas = lambda: Fn('program_feasible', TU, 'feasible', flt='program_t::feasible', self_struct='struct nv_program', **COMMON)
-    done = lambda: Fn('solver_done', TU, 'done', flt='solver_t::done', **COMMON)
-    ctor = lambda: Fn('pstate_ctor', 'src/program/state.cpp', 'solver_state_t', flt='solver_state_t::solver_state_t',
+    feas = lambda: Fn('program_feasible', TU, 'feasible', flt=FLT, self_struct='struct nv_program', **COMMON)
+    done = lambda: Fn('solver_done', TU, 'done', flt=FLT, **COMMON)
+    ctor = lambda: Fn('pstate_ctor', 'src/program/state.cpp', 'solver_state_t', flt='solver_state_t',
                       select=lambda d: len(astload.param_types(d)) == 3, self_struct='struct nv_pstate', **COMMON)
     smax = lambda: Fn('make_smax', TU, 'make_smax', flt='make_smax', **COMMON)
-    swi = lambda cname='solve_with_inequality': Fn(cname, TU, 'solve_with_inequality', flt='solver_t::solve_with_inequality', self_struct='struct nv_solver',
+    swi = lambda cname='solve_with_inequality': Fn(cname, TU, 'solve_with_inequality', flt=FLT, self_struct='struct nv_solver',
                      **dict(COMMON, calls=[(r'^make_smax\|', 'nv_make_smax_any')] + CALLS))
-    swo = lambda: Fn('solve_without_inequality', TU, 'solve_without_inequality', flt='solver_t::solve_without_inequality', self_struct='struct nv_solver', **COMMON)
-    done_abs = lambda: Fn('solver_done', TU, 'done', flt='solver_t::done', **dict(COMMON, members=FEAS_ABS + MEMBERS))
+    swo = lambda: Fn('solve_without_inequality', TU, 'solve_without_inequality', flt=FLT, self_struct='struct nv_solver', **COMMON)
+    done_abs = lambda: Fn('solver_done', TU, 'done', flt=FLT, **dict(COMMON, members=FEAS_ABS + MEMBERS))
     targets = [
         Target('program_feasible', [feas()], H),
-        Target('solver_done', [done(), feas()], H, replace=['program_feasible']),
-        Target('solver_done_nan', [Fn('solver_done_nan', TU, 'done', flt='solver_t::done', **COMMON), feas()], H, replace=['program_feasible']),
+        # cadical: the default SAT solver needs ~170 s for the (tiny) formula of the repaired three-comparison body, cadical ~1 s
+        Target('solver_done', [done(), feas()], H, replace=['program_feasible'], cbmc_flags=['--sat-solver', 'cadical']),
+        Target('solver_done_nan', [Fn('solver_done_nan', TU, 'done', flt=FLT, **COMMON), feas()], H, replace=['program_feasible'],
+               cbmc_flags=['--sat-solver', 'cadical']),
         Target('pstate_ctor', [ctor()], H),
         Target('make_smax', [smax()], H),
         # done() is inlined (its own contract is target solver_done); inside it program_t::feasible is the abstract function
